@@ -369,7 +369,8 @@ func runReal(x *X, pk PkgMeta, c *Case, safety uint64) (*vrt.Response, *vrt.Ctx)
 	req := &vrt.Request{Entry: c.Entry, Filename: c.Opts.Filename, Input: c.Input, Memoize: c.Opts.Memoize, Debug: c.Opts.Debug,
 		Stats: c.Opts.Stats, MaxExpr: c.Opts.MaxExpr, AllowInvalid: c.Opts.AllowInvalid, NoRecover: c.Opts.NoRecover,
 		InitState: initStateOf(c.Opts), Globals: globalsOf(c.Opts), Ctx: ctx, WarmStats: c.Opts.WarmStats && c.Opts.Stats,
-		ViaReader: c.Opts.Via == "reader", ViaFile: c.Opts.Via == "file", DupOpts: c.Opts.DupOpts, OptOrder: c.Opts.OptOrder}
+		ViaReader: c.Opts.Via == "reader", ViaFile: c.Opts.Via == "file", DupOpts: c.Opts.DupOpts, OptOrder: c.Opts.OptOrder, PoisonBefore: c.Opts.PoisonBefore, CallAfter: c.Opts.CallAfter,
+		MemoExtraOK: !x.G.Spec.HasState && x.G.Spec.Profile != "diverging" && x.G.Spec.Profile != "leftrec"}
 	if req.MaxExpr == 0 && safety > 0 {
 		req.MaxExpr = safety
 	}
